@@ -144,7 +144,7 @@ func stripGoExt(v interface{}) interface{} {
 	return v
 }
 
-var hostileChars = []string{"`", "``", "\"", "'", "\\", "\n", "\t", "\r\n", "é", "日本", " ", "\u0001", "<&>", "${x}", "`+\"`\"+`", "%s", "{{.}}", " "}
+var hostileChars = []string{"\u200b", "`", "``", "\"", "'", "\\", "\n", "\t", "\r\n", "é", "日本", " ", "\u0001", "<&>", "${x}", "`+\"`\"+`", "%s", "{{.}}", " "}
 
 func hostileText(r *rng.R) string {
 	var b strings.Builder
@@ -186,6 +186,14 @@ func CheckC10(run *ev.Run) {
 			}
 		}
 		doc := TextSpec(vals)
+		// a vendor extension carries text that only ever lands in the embedded documents: this is where a byte order mark (illegal in Go source, legal in JSON) is placed
+		{
+			var dm map[string]interface{}
+			_ = json.Unmarshal(doc, &dm)
+			note := hostileText(r) + "\ufeff" + hostileText(r)
+			dm["info"].(map[string]interface{})["x-verif-note"] = note
+			doc, _ = json.MarshalIndent(dm, "", " ")
+		}
 		mode := modes[i%len(modes)]
 		asYAML := i%2 == 1
 		input := doc
